@@ -1,5 +1,6 @@
 """Rules added after the third round of seeded changes (general forms of what that round slipped past)."""
 import ast
+import os
 import sympy as sp
 from ..report import AnalysisError
 from .. import pyfacts as pf
@@ -713,3 +714,287 @@ def make_sign_rule(rule_id_out):
                 _, status, f, fn, construct, line, detail = row
                 getattr(r, status)(f, fn, construct, line, detail)
     return run
+
+
+# --------------------------------------------------------------------------------------------- C14: removable singularities are guarded
+def _degen_alternatives(e, limit=32):
+    """Resolve where(c, a, b) nodes of `e` (after a substitution p := q): a condition comparing two structurally equal operands is
+    decided, any other condition keeps both alternatives."""
+    import sympy as sp
+    def rec(x):
+        if not getattr(x, "args", None):
+            return [x]
+        fname = getattr(getattr(x, "func", None), "__name__", "")
+        if fname == "where" and len(x.args) == 3:
+            c, a, b = x.args
+            cname = getattr(getattr(c, "func", None), "__name__", "")
+            if cname in ("c_lt", "c_gt", "c_ne", "c_le", "c_ge", "c_eq") and len(c.args) == 2 and sp.simplify(c.args[0] - c.args[1]) == 0:
+                return rec(b) if cname in ("c_lt", "c_gt", "c_ne") else rec(a)
+            return (rec(a) + rec(b))[:limit]
+        alts = [[]]
+        for arg in x.args:
+            ra = rec(arg)
+            alts = [p + [v] for p in alts for v in ra][:limit]
+        out = []
+        for p in alts:
+            try:
+                out.append(x.func(*p))
+            except Exception:
+                pass
+        return out
+    return rec(e)
+
+
+def degen_unit(unit, extra):
+    """Worker: in the functions that compute the reported radius and volumes, a denominator that vanishes identically when two of
+    the function's own parameters are equal (a removable singularity: the sphere limit of an ellipsoid formula) is only reached
+    behind a test for that equality."""
+    import sympy as sp
+    from .. import cfront
+    from ..nf import CInterp, c_text, c_strip, c_callee, sym
+    from ..ckernel import kids
+    from ..report import AnalysisError
+    out = []
+    roots = [n for n in ("radius_effective", "form_volume", "shell_volume") if n in unit.functions and unit.body(unit.functions[n]) is not None]
+    seen, todo = set(), list(roots)
+    while todo:
+        n = todo.pop()
+        if n in seen:
+            continue
+        seen.add(n)
+        for x in cfront.walk(unit.body(unit.functions[n])):
+            if x.get("kind") == "CallExpr":
+                c = c_callee(x)
+                if c in unit.functions and unit.body(unit.functions[c]) is not None and c not in seen:
+                    todo.append(c)
+
+    def pair_of(cond, pnames):
+        c = c_strip(cond)
+        if c.get("kind") == "BinaryOperator" and c.get("opcode") in ("==", "!="):
+            a, b = (c_strip(k) for k in kids(c))
+            if a.get("kind") == b.get("kind") == "DeclRefExpr":
+                na, nb = a["referencedDecl"]["name"], b["referencedDecl"]["name"]
+                if na in pnames and nb in pnames and na != nb:
+                    return c["opcode"], frozenset((na, nb))
+        return None, None
+
+    def returns(st):
+        if st.get("kind") == "ReturnStmt":
+            return True
+        if st.get("kind") == "CompoundStmt":
+            inner = st.get("inner", [])
+            return bool(inner) and returns(inner[-1])
+        return False
+
+    for name in sorted(seen):
+        f = unit.functions[name]
+        pnames = [p["name"] for p in unit.params(f) if p["type"]["qualType"].replace("const ", "").strip() in ("double", "float")]
+        if len(pnames) < 2:
+            continue
+        it = CInterp(unit.functions, opaque_loops=True)
+        ndiv = [0]
+
+        def check_expr(e, env, guards):
+            for x in cfront.walk(e):
+                if x.get("kind") in ("BinaryOperator", "CompoundAssignOperator") and x.get("opcode") in ("/", "/="):
+                    den = kids(x)[1]
+                    try:
+                        d = it.expr(den, dict(env))
+                    except (AnalysisError, Exception):
+                        continue
+                    if not hasattr(d, "free_symbols"):
+                        continue
+                    ndiv[0] += 1
+                    names = {str(s) for s in d.free_symbols}
+                    for i, p in enumerate(pnames):
+                        for q in pnames[i + 1:]:
+                            if p not in names and q not in names:
+                                continue
+                            sub = d.subs(sym(p), sym(q))
+                            zero = False
+                            for alt in _degen_alternatives(sub):
+                                try:
+                                    if sp.simplify(alt) == 0:
+                                        zero = True
+                                        break
+                                except Exception:
+                                    pass
+                            if not zero:
+                                continue
+                            ok = frozenset((p, q)) in guards
+                            ff, ll = unit.where(x)
+                            out.append(("R-C14-degenerate", "ok" if ok else "violation", ff, "%s:%s" % (unit.name, name),
+                                        "%s is zero when %s == %s" % (c_text(den)[:60], p, q), ll,
+                                        "reached only behind a test for %s == %s" % (p, q) if ok else
+                                        "the divisor vanishes identically at %s == %s (an admissible, and for equal-centred "
+                                        "distributions common, parameter point) and no earlier test for that equality returns the "
+                                        "limiting value: the function evaluates 0/0 there and the reported radius/volume is NaN" % (p, q)))
+
+        def walk_block(stmts, env, guards):
+            guards = set(guards)
+            for st in stmts:
+                k = st.get("kind")
+                if k == "IfStmt":
+                    inner = st["inner"]
+                    cond, then = inner[0], inner[1]
+                    els = inner[2] if len(inner) > 2 else None
+                    check_expr(cond, env, guards)
+                    op, pr = pair_of(cond, pnames)
+                    g_then = guards | ({pr} if op == "!=" else set())
+                    g_else = guards | ({pr} if op == "==" else set())
+                    walk_block(then.get("inner", []) if then.get("kind") == "CompoundStmt" else [then], dict(env), g_then)
+                    if els is not None:
+                        walk_block(els.get("inner", []) if els.get("kind") == "CompoundStmt" else [els], dict(env), g_else)
+                    if op == "==" and returns(then):
+                        guards.add(pr)
+                    if op == "!=" and els is not None and returns(els):
+                        guards.add(pr)
+                    it._havoc(st, env)
+                elif k == "CompoundStmt":
+                    walk_block(st.get("inner", []), env, guards)
+                elif k in ("ForStmt", "WhileStmt", "DoStmt", "SwitchStmt"):
+                    it._havoc(st, env)
+                    for sub in st.get("inner", []):
+                        if isinstance(sub, dict) and sub.get("kind"):
+                            if sub.get("kind") == "CompoundStmt":
+                                walk_block(sub.get("inner", []), dict(env), guards)
+                            else:
+                                walk_block([sub], dict(env), guards)
+                elif k in ("CaseStmt", "DefaultStmt"):
+                    walk_block([st["inner"][-1]], env, guards)
+                else:
+                    check_expr(st, env, guards)
+                    try:
+                        it.stmt(st, env)
+                    except CInterp.Return:
+                        pass
+                    except (AnalysisError, Exception):
+                        it._havoc(st, env)
+
+        env = {p["name"]: sym(p["name"]) for p in unit.params(f)}
+        walk_block(unit.body(f).get("inner", []), env, set())
+        ff, ll = unit.where(f)
+        out.append(("R-C14-degenerate", "ok", ff, "%s:%s" % (unit.name, name), "%d divisions examined for equal-parameter zeros" % ndiv[0], ll, ""))
+    return out
+
+
+_degen_cache = None
+
+
+def rule_c14_degenerate(r):
+    global _degen_cache
+    if _degen_cache is None:
+        from .. import cfront
+        _degen_cache = cfront.map_units("sa.rules.extra3:degen_unit")
+    for unit, rows in sorted(_degen_cache.items()):
+        for row in rows:
+            _, status, f, fn, construct, line, detail = row
+            getattr(r, status)(f, fn, construct, line, detail)
+
+
+# --------------------------------------------------------------------------------------------- C18: who may remove a published library
+_RM_SINKS = {"os.remove": 0, "os.unlink": 0, "remove": 0, "unlink": 0, "os.rmdir": 0, "shutil.rmtree": 0, "rmtree": 0,
+             "os.rename": None, "os.replace": None, "shutil.move": None, "os.truncate": 0}
+_DLL_SOURCES = ("dll_path", "make_dll", "dll_name")
+
+
+def rule_c18_owner(r):
+    """A library published under its final cache name is shared by every process that looked it up; only make_dll (which
+    publishes by rename, checked by R-C18-publish) may replace it and nothing in the library may remove it.  Every call in
+    sasmodels/*.py that removes, renames or truncates a file is enumerated; its path argument must not be a cache path
+    (a `.dllpath` attribute, or a value obtained from dll_path()/make_dll()), directly, through a local, or through a helper
+    or a registered callback (atexit.register, weakref.finalize ...) that forwards its argument to such a call."""
+    import glob
+    files = sorted(glob.glob(os.path.join(pf.REPO, "sasmodels", "*.py")))
+    mods = [pf.module("sasmodels/" + os.path.basename(f)) for f in files]
+
+    def tainted_names(fn):
+        names = set()
+        changed = True
+        assigns = [s for s in pf.walk_stmts(fn) if isinstance(s, (ast.Assign, ast.AnnAssign)) and getattr(s, "value", None) is not None]
+        def is_tainted(e):
+            for n in ast.walk(e):
+                if isinstance(n, ast.Attribute) and n.attr == "dllpath":
+                    return True
+                if isinstance(n, ast.Call) and (pf.call_name(n) or "").split(".")[-1] in _DLL_SOURCES:
+                    return True
+                if isinstance(n, ast.Name) and n.id in names:
+                    return True
+            return False
+        while changed:
+            changed = False
+            for a in assigns:
+                if is_tainted(a.value):
+                    for nm in pf.assigned_names(a):
+                        if nm not in names:
+                            names.add(nm)
+                            changed = True
+        return is_tainted
+
+    def sink_args(c):
+        nm = pf.call_name(c) or ""
+        if nm in _RM_SINKS:
+            idx = _RM_SINKS[nm]
+            return list(c.args) if idx is None else list(c.args[idx:idx + 1])
+        return None
+
+    # helpers that forward a parameter into a sink: name -> set(param index)
+    removers = {}
+    for mod in mods:
+        for qual, fn in mod.functions.items():
+            ps = pf.positional_params(fn)
+            for c in pf.calls_in(fn):
+                args = sink_args(c)
+                for a in args or []:
+                    for n in ast.walk(a):
+                        if isinstance(n, ast.Name) and n.id in ps:
+                            removers.setdefault(qual.split(".")[-1], set()).add(ps.index(n.id))
+    n_sites = 0
+    for mod in mods:
+        scopes = list(mod.functions.items()) + [("<module>", mod.tree)]
+        for qual, fn in sorted(scopes, key=lambda kv: kv[0]):
+            is_tainted = tainted_names(fn)
+            own = fn.body if qual != "<module>" else [s for s in mod.tree.body if not isinstance(s, (ast.FunctionDef, ast.ClassDef))]
+            for st in own:
+                for c in (x for x in ast.walk(st) if isinstance(x, ast.Call)):
+                    if qual != "<module>" and mod.parents.get(c) is not None:
+                        # calls of nested functions are visited with their own scope as well; harmless duplicates are merged below
+                        pass
+                    args = sink_args(c)
+                    how = None
+                    if args is not None:
+                        how = pf.call_name(c)
+                    else:
+                        # a remover helper called, or passed as a callback next to the value it will receive
+                        cn = (pf.call_name(c) or "").split(".")[-1]
+                        if cn in removers:
+                            args = [c.args[i] for i in removers[cn] if i < len(c.args)]
+                            how = "%s -> remove" % cn
+                        else:
+                            cb = [a for a in c.args if isinstance(a, (ast.Name, ast.Attribute)) and pf.unparse(a).split(".")[-1] in removers]
+                            if cb:
+                                args = [a for a in c.args if a not in cb] + [k.value for k in c.keywords]
+                                how = "%s(%s, ...) -> remove" % (pf.call_name(c), pf.unparse(cb[0]))
+                            lam = [a for a in c.args if isinstance(a, ast.Lambda) and any(sink_args(x) for x in ast.walk(a) if isinstance(x, ast.Call))]
+                            if lam and args is None:
+                                args = [x2 for a in lam for x in ast.walk(a) if isinstance(x, ast.Call) for x2 in (sink_args(x) or [])]
+                                how = "%s(lambda: remove)" % pf.call_name(c)
+                    if args is None:
+                        continue
+                    n_sites += 1
+                    bad = [pf.unparse(a) for a in args if is_tainted(a)]
+                    leaf = qual.split(".")[-1]
+                    if qual in ("make_dll",) and mod.relpath.endswith("kerneldll.py"):
+                        r.ok(mod.relpath, qual, "%s(%s)" % (how, ", ".join(pf.unparse(a) for a in args)[:70]), c.lineno,
+                             "the publisher itself (ordering checked by R-C18-publish)")
+                    elif leaf.startswith("test_") or leaf.startswith("_test"):
+                        r.ok(mod.relpath, qual, "%s(%s)" % (how, ", ".join(pf.unparse(a) for a in args)[:70]), c.lineno,
+                             "test function cleaning up the throw-away model it built itself; not reachable from the library API")
+                    else:
+                        r.check(not bad, mod.relpath, qual, "%s(%s)" % (how, ", ".join(pf.unparse(a) for a in args)[:70]), c.lineno,
+                                "not a cache path" if not bad else
+                                "removes/replaces the published library %s: another process that found it in the cache and has "
+                                "not yet opened it (loading is lazy) fails to load, and a process that has it mapped keeps a file "
+                                "the next builder recreates under the same name" % bad)
+    if n_sites < 4:
+        raise AnalysisError("R-C18-owner: only %d file-removing call sites found (anchor moved?)" % n_sites)
